@@ -1131,15 +1131,19 @@ static int json_object_double_to_json_string_format(struct json_object *jso, str
 		{
 			/* last useful digit, always keep 1 zero */
 			p++;
-			for (q = p; *q; q++)
+			for (q = p; *q && *q != 'e' && *q != 'E'; q++)
 			{
 				if (*q != '0')
 					p = q;
 			}
-			/* drop trailing zeroes */
+			/* drop trailing zeroes of the fraction, keep an exponent */
 			if (*p != 0)
-				*(++p) = 0;
-			size = p - buf;
+			{
+				p++;
+				if (p != q)
+					memmove(p, q, strlen(q) + 1);
+				size = (p - buf) + strlen(p);
+			}
 		}
 	}
 	// although unlikely, snprintf can fail
